@@ -180,8 +180,8 @@ func comparePreRelease(pr1, pr2 []string) int {
 // comparePreReleaseIdentifier compares individual pre-release identifiers
 func comparePreReleaseIdentifier(id1, id2 string) int {
 	// Try to parse as integers first
-	num1, err1 := strconv.Atoi(id1)
-	num2, err2 := strconv.Atoi(id2)
+	num1, err1 := parseNumericIdentifier(id1)
+	num2, err2 := parseNumericIdentifier(id2)
 
 	if err1 == nil && err2 == nil {
 		// Both are numbers, compare numerically
@@ -204,6 +204,14 @@ func comparePreReleaseIdentifier(id1, id2 string) int {
 		return 1
 	}
 	return 0
+}
+
+// parseNumericIdentifier parses an all-digit identifier; Atoi alone would also accept a sign ("-5")
+func parseNumericIdentifier(s string) (int, error) {
+	if strings.TrimLeft(s, "0123456789") != "" {
+		return 0, strconv.ErrSyntax
+	}
+	return strconv.Atoi(s)
 }
 
 func compareInt(a, b int) int {
